@@ -585,6 +585,25 @@ func checkC11(rc *Run) error {
 	}
 	close(ajobs)
 	wg.Wait()
+	// inputs and flags outside the generated spaces, each a way to reach code the generators do not (reported by readers of the code)
+	for _, xc := range []struct {
+		stdin string
+		args  []string
+	}{
+		{"{1}\n", []string{"-p=json", "."}}, {"{\"a\":1,true:2}\n", []string{"-p=json", "."}}, {"{null:1}\n", []string{"-p=json", "."}}, {"[{1:2}]\n", []string{"-p=json", "-o=yaml", "."}},
+		{"!!map [1]\n", []string{"-o=xml", "."}}, {"[!!map [1]]\n", []string{"pivot"}}, {"!!seq {a: 1}\n", []string{"-o=xml", "."}}, {"[1, 2, 3]\n", []string{"-o=xml", ". tag = \"!!map\""}},
+		{"!!map [1]\n", []string{"-o=json", "."}}, {"!!map [1]\n", []string{"-o=props", "."}}, {"!!seq {a: 1}\n", []string{"-o=csv", "."}}, {"!!map [1]\n", []string{"-o=lua", "."}},
+		{"a: 1\n", []string{"-I=-1", "."}}, {"a: 1\n", []string{"-I=-1", "-o=json", "."}}, {"a: {b: 1}\n", []string{"-I=-5", "-o=xml", "."}},
+	} {
+		p := runProc(dir, []byte(xc.stdin), xc.args...)
+		note("explicit:" + strings.Join(xc.args, " "))
+		desc := M{"argv": append([]string{"yq"}, xc.args...), "stdin": xc.stdin}
+		if p.Hang {
+			reportCrash("hang", "explicit", fmt.Sprintf("yq %s does not terminate on %q", strings.Join(xc.args, " "), xc.stdin), desc)
+		} else if p.crashed() {
+			reportCrash("panic", panicSite([]byte(p.Stderr)), fmt.Sprintf("yq %s on %q aborts: %s", strings.Join(xc.args, " "), xc.stdin, firstLine(p.Stderr)), desc)
+		}
+	}
 	rc.Sample(M{"family": "anchors / aliases / merge keys incl. ill-typed merge sources", "example": M{"argv": []string{"yq", "explode(.)"}, "stdin": illdocs[0]}})
 
 	// (7) truncated and corrupted texts of every other input format: the texts the codec specification writes
